@@ -302,6 +302,8 @@ fn enum_large(tier: Tier, f: &mut dyn FnMut(SeqCase) -> bool) {
         cases.push(SeqCase::full(2, lcg_seq(10, 12, 5), lcg_seq(11, 110_000, 5)));
         cases.push(SeqCase::full(2, lcg_seq(12, 2100, 60), lcg_seq(13, 2100, 60)));
     }
+    // sizes at and around the powers of two from 64 to 8192
+    cases.extend(super::common::pow2_seq_cases(1025));
     for mut c in cases {
         c.mode = MODE_LARGE;
         if !f(c) {
@@ -374,7 +376,7 @@ impl Prop for C01 {
             Stage {
                 name: "large",
                 kind: StageKind::Enumerate {
-                    scope: "fixed large cases: Myers/Patience with edit distance in the thousands (100 vs 2100 and 1600 vs 1600 distinct items, 3000 vs 2500 over 7 letters), 20000 near-identical items, LCS tables of 360 000 and 1.1 M cells (thorough: also 4.4 M cells and 12 x 110 000)".into(),
+                    scope: "fixed large cases: Myers/Patience with edit distance in the thousands (100 vs 2100 and 1600 vs 1600 distinct items, 3000 vs 2500 over 7 letters), 20000 near-identical items, LCS tables of 360 000 and 1.1 M cells (thorough: also 4.4 M cells and 12 x 110 000); near-identical sequences of N / N+1 items for N = 2^k - 1, 2^k, 2^k + 1, k = 6..13, per algorithm (LCS up to 1025)".into(),
                     exhaustive: true,
                     gen: enum_large,
                 },
